@@ -31,7 +31,7 @@ def population(hv, tier, sd, pops, per_pop):
     out = []
     for i, c in enumerate(cases):
         c = dict(c)
-        c["w"] = rng.choice([8, 8, 16, 32, 64])
+        c["w"] = rng.choice([64, 64, 64, 64, 64, 32]) if c["pop"] == "L" else rng.choice([8, 8, 16, 32, 64])
         c["id"] = "%s%d" % (c["pop"], i)
         out.append(c)
     return out
